@@ -55,6 +55,13 @@ def gen_instance(rng, tier, kind=None):
             for _ in range(rng.randint(1, 3)):
                 i, j = sorted(rng.sample(range(n), 2))
                 cs.append((order[j], order[i], rng.choice([0, 1, 2, 5])))   # a back edge: may close a contradictory cycle
+    if rng.random() < 0.06:
+        # far-apart targets and wide gaps with stiff variables: costs beyond 2^63 (the solver's initial `lastcost` is sys.maxsize, not infinity)
+        k = rng.choice([1e5, 1e6, 3e4])
+        ds = [d * k for d in ds]
+        cs = [(l, r, g * k) for l, r, g in cs]
+        if wstyle in ("one", "mixed"):
+            ws = [w * rng.choice([1e10, 1e8]) for w in ws]
     inst = {"kind": kind, "d": ds, "w": ws, "s": ss, "cs": cs}
     if rng.random() < 0.2 and n >= 2:
         # the SAME solver object is given new desired positions (setDesiredPositions) and solved again, once or twice: the incremental use
